@@ -59,12 +59,21 @@ def history(rng, n):
     return g, a, m
 
 
-def params_for(rng, name, explicit, spell_dt=None):
+def params_for(rng, name, explicit, spell_dt=None, none_k=None):
     kw = _params_for(rng, name, explicit)
     coin = rng.random() < 0.5
     if "frequency" in kw and (coin if spell_dt is None else spell_dt):       # the sampling step spelled as Dt instead of frequency (both spellings for every filter on every run)
         kw["Dt"] = 1.0 / kw.pop("frequency")
-    if rng.random() < 0.3:      # options whose default is None handed over explicitly as None (a caller forwarding cfg.get('gain')): the same as leaving them out
+    if none_k is not None:      # (batch-vs-stream cases: on a fixed schedule - every repetition hands one of the None-default options over as None, to the default or the explicit run in turn)
+        rng.random()
+        if (none_k + int(explicit)) % 2 == 1:
+            for pref, names in NONE_DEFAULTS.items():
+                if name.startswith(pref):
+                    kw[names[none_k % len(names)]] = None
+                    if none_k % 3 == 2:
+                        for n_ in names:
+                            kw[n_] = None
+    elif rng.random() < 0.3:      # options whose default is None handed over explicitly as None (a caller forwarding cfg.get('gain')): the same as leaving them out
         for pref, names in NONE_DEFAULTS.items():
             if name.startswith(pref):
                 for n_ in names:
@@ -117,7 +126,7 @@ def generate(rng, tier, shard, nshards):
                 if rep % 3:            # sensor drop-outs (all-zero rows after the first sample): the fall-back paths must also be the same in both modes
                     for arr in ((m,) if rep % 3 == 1 else ((a,), (a, m))[(k // 2) % 2]):   # every configuration sees a magnetometer-only drop-out
                         arr[rng.choice(np.arange(1, n), size=min(n - 1, int(rng.integers(1, 4))), replace=False)] = 0.0
-                yield Case("bs", "bs:explicit-params" if explicit else "bs:default-params", cfg=name, kw=params_for(rng, name, explicit, spell_dt=(rep % 2 == 0)),
+                yield Case("bs", "bs:explicit-params" if explicit else "bs:default-params", cfg=name, kw=params_for(rng, name, explicit, spell_dt=(rep % 2 == 0), none_k=rep),
                            g=g, a=a, m=m, seed=int(rng.integers(2**31)), order=(2 * rep + int(explicit)) % 7)
     for i in range(gens.budget(24, tier, nshards, mult=6)):
         kinst = 2 if i % 2 == 0 else int(rng.integers(3, 5))
